@@ -24,7 +24,8 @@ def axioms_for(o):
 
 
 
-def verify_case(repo, qualname, case_index, timeout_ms=10000, want_models=True, only_names=None, retry=True):
+def verify_case(repo, qualname, case_index, timeout_ms=10000, want_models=True, only_names=None, retry=True,
+                failed_retry_budget=3):
     """Returns dict(status, results=[...], stats, notes).  status: ok | undecided | error."""
     contract = REGISTRY[qualname]
     case = contract.cases[case_index]
@@ -82,7 +83,7 @@ def verify_case(repo, qualname, case_index, timeout_ms=10000, want_models=True, 
                                                fn=qualname, case=case.name, detail=verdict).to_dict())
         import os as _os
         only = _os.environ.get('PYVC_ONLY')
-        n_retries = [0 if retry else 99]       # slow queries on a correct tree are rare; many unknowns mean the code
+        n_retries = [(3 - failed_retry_budget) if retry else 99]       # slow queries on a correct tree are rare; many unknowns mean the code
         #                       no longer matches its contract, and retrying each would only cost time
         for o in obls:
             if only and only not in o.name:
